@@ -37,6 +37,10 @@ func main() {
 		{"envelope.go", "verifNow"}, {"key_cache.go", "verifNow"}, {"policy.go", "verifNow"},
 		{"session_cache.go", "verifNow"}, {"internal/key.go", "VerifNow"},
 	}
+	if *syncPts {
+		// pkg/cache has an injectable clock already; it only gets sync points
+		targets = append(targets, target{"pkg/cache/cache.go", ""})
+	}
 	replace := map[string]string{}
 	if err := os.MkdirAll(*out, 0o755); err != nil {
 		fail(err)
@@ -55,14 +59,14 @@ func main() {
 				return true
 			}
 			if sel, ok := call.Fun.(*ast.SelectorExpr); ok {
-				if x, ok := sel.X.(*ast.Ident); ok && x.Name == "time" && sel.Sel.Name == "Now" {
+				if x, ok := sel.X.(*ast.Ident); ok && t.nowVar != "" && x.Name == "time" && sel.Sel.Name == "Now" {
 					call.Fun = ast.NewIdent(t.nowVar)
 					n++
 				}
 			}
 			return true
 		})
-		if *syncPts && (t.rel == "key_cache.go" || t.rel == "session_cache.go") {
+		if *syncPts && (t.rel == "key_cache.go" || t.rel == "session_cache.go" || t.rel == "pkg/cache/cache.go") {
 			insertSyncPoints(f, strings.TrimSuffix(filepath.Base(t.rel), ".go"))
 			addImport(f, "github.com/godaddy/asherah/go/appencryption/internal/verifsync")
 		}
@@ -94,9 +98,13 @@ import (
 	"time"
 
 	"github.com/godaddy/asherah/go/appencryption/internal"
+	"github.com/godaddy/asherah/go/appencryption/internal/verifsync"
 )
 
 var verifNow = time.Now
+
+// VerifSetSyncHook installs (or removes, with nil) the hook called at every instrumented sync point.
+func VerifSetSyncHook(f func(string)) { verifsync.Set(f) }
 
 // VerifSetClock installs a virtual clock for this package and its internal package.
 func VerifSetClock(f func() time.Time) {
